@@ -730,17 +730,30 @@ def make_wild(rng, case) -> Dict[str, Any]:
 
 # --------------------------------------------------------------------------- comparison
 
-def diff_shapes(exp, got) -> Optional[Dict[str, Any]]:
-    """First difference between two page results (lists of field dicts or an error string)."""
+GROUPS = [["kind", "pts", "path", "bbox"], ["sc", "nc"], ["lw", "s", "f", "e", "d"]]
+
+
+def diff_all(exp, got) -> List[Dict[str, Any]]:
+    """Differences between two page results (lists of field dicts or an error string): at most one per
+    field group (geometry / colours / other graphics state) of the first differing shape of that group,
+    so that independent deviations are reported (and classified) independently."""
     if isinstance(got, str) or isinstance(exp, str):
-        return None if exp == got else {"index": None, "fields": ["exception"], "expected": exp, "got": got}
+        return [] if exp == got else [{"index": None, "fields": ["exception"], "expected": exp, "got": got}]
     if len(exp) != len(got):
-        return {"index": None, "fields": ["count"], "expected": page_line(exp), "got": page_line(got)}
-    for i, (e, g) in enumerate(zip(exp, got)):
-        bad = [k for k in FIELDS if e[k] != g[k]]
-        if bad:
-            return {"index": i, "fields": bad, "expected": fields_line(e), "got": fields_line(g), "e": e, "g": g}
-    return None
+        return [{"index": None, "fields": ["count"], "expected": page_line(exp), "got": page_line(got)}]
+    res = []
+    for grp in GROUPS:
+        for i, (e, g) in enumerate(zip(exp, got)):
+            bad = [k for k in grp if e[k] != g[k]]
+            if bad:
+                res.append({"index": i, "fields": bad, "expected": fields_line(e), "got": fields_line(g), "e": e, "g": g})
+                break
+    return res
+
+
+def diff_shapes(exp, got) -> Optional[Dict[str, Any]]:
+    d = diff_all(exp, got)
+    return d[0] if d else None
 
 
 def rect_reversed(e: Dict[str, str], g: Dict[str, str]) -> bool:
@@ -767,14 +780,23 @@ def signature(d) -> Tuple:
     return (tuple(d["fields"]), d["index"] is None)
 
 
-def prop_failure(case) -> Optional[Dict[str, Any]]:
+def prop_failures(case) -> List[Dict[str, Any]]:
     """Evaluate the property on the implementation for one in-domain case."""
     try:
         exp = spec_run(case)
     except OutsideDomain:
-        return None
+        return []
     got = run_impl([case])[0]
-    return diff_shapes(exp, visible(got))
+    return diff_all(exp, visible(got))
+
+
+def same_failure(case, sig, tags0) -> Optional[Dict[str, Any]]:
+    for d in prop_failures(case):
+        if signature(d) == sig:
+            t = failure_tags(case, d)
+            if all(t.get(k) == tags0.get(k) for k in ("rect_pts_reversed", "expected_pattern")):
+                return d
+    return None
 
 
 def shrink(case, d0) -> Tuple[Dict[str, Any], Dict[str, Any]]:
@@ -782,12 +804,7 @@ def shrink(case, d0) -> Tuple[Dict[str, Any], Dict[str, Any]]:
     tags0 = failure_tags(case, d0)
 
     def still(ops):
-        c = dict(case, ops=ops)
-        d = prop_failure(c)
-        if d is None or signature(d) != sig:
-            return False
-        t = failure_tags(c, d)
-        return all(t.get(k) == tags0.get(k) for k in ("rect_pts_reversed", "expected_pattern"))
+        return same_failure(dict(case, ops=ops), sig, tags0) is not None
     ops = C.ddmin(list(case["ops"]), still, max_tests=150)
     small = dict(case, ops=ops)
     # simpler page set-up when the failure does not depend on it
@@ -795,12 +812,12 @@ def shrink(case, d0) -> Tuple[Dict[str, Any], Dict[str, Any]]:
                 {"rotate": small["rotate"], "mediabox": small["mediabox"], "cs": {}}):
         cand = dict(small, **alt)
         try:
-            d = prop_failure(cand)
+            d = same_failure(cand, sig, tags0)
         except Exception:  # noqa: BLE001
             d = None
-        if d is not None and signature(d) == sig:
+        if d is not None:
             small = cand
-    d = prop_failure(small)
+    d = same_failure(small, sig, tags0)
     if d is None:
         return case, d0
     return small, d
@@ -882,8 +899,7 @@ def check_batch(ctx: C.Ctx, cases: List[Dict[str, Any]], in_domain: bool, seen_s
                 ctx.disagree("spec-domain", {k: case[k] for k in ("rotate", "mediabox", "cs", "ops")},
                              "outside-domain", lean_spec[i])
         if dom and in_domain:
-            d = diff_shapes(exp, visible(got))
-            if d is not None:
+            for d in diff_all(exp, visible(got)):
                 ctx.branch("propfail:" + "+".join(d["fields"]))
                 t = failure_tags(case, d)
                 sig = (signature(d), t.get("rect_pts_reversed"), t.get("expected_pattern"), t.get("segment_after_h"),
